@@ -431,7 +431,7 @@ private def xfer (a b k : Bytes) (n amt : Nat) : Tx :=
   { t1 with hash := hashInput t1 }
 
 private def w0 : World :=
-  { nonce := fun _ => 0, led := { bal := fun a => if a = kA ∨ a = kB then 1000 else 0, names := fun _ => none, pend := [] } }
+  { nonce := fun _ => 0, led := { bal := fun a => if a = kA ∨ a = kB then 1000 else 0, names := fun _ => none, pend := [], creator := fun _ => [] } }
 
 private def runT (cid : Bytes) (useMempool : Bool) (W : World) (bs : List (List Tx)) :=
   runBranch id idealVerify envT stdBody (fun _ => cid) useMempool (fun _ _ => useMempool) 0 W bs
